@@ -175,6 +175,42 @@ def registry_key_code(problems):
     return 9
 
 
+GROUPS = {"pre_call": 0, "call_code": 1, "post_call_pattern": 2, "post_call": 3, "final_code": 4, "return_code": 5}
+
+
+def wrap_group_order(problems):
+    """the order in which Wrapc.wrap_function concatenates the statement groups of a C wrapper
+    (`C_code = pre_call + call_code + ...`): 0 pre_call, 1 call, 2 post_call_pattern, 3 post_call,
+    4 final (user supplied release code), 5 return"""
+    import ast
+    tree = ast.parse(open(os.path.join(common.REPO, "shroud", "wrapc.py")).read())
+    found = []
+    for node in ast.walk(tree):
+        if isinstance(node, ast.Assign) and len(node.targets) == 1 and isinstance(node.targets[0], ast.Name) \
+                and node.targets[0].id == "C_code" and isinstance(node.value, ast.BinOp):
+            names = []
+
+            def flat(e):
+                if isinstance(e, ast.BinOp) and isinstance(e.op, ast.Add):
+                    flat(e.left)
+                    flat(e.right)
+                elif isinstance(e, ast.Name):
+                    names.append(e.id)
+                else:
+                    names.append("?" + ast.unparse(e))
+            flat(node.value)
+            found.append(names)
+    if len(found) != 1:
+        problems.append("wrap_function: expected one `C_code = a + b + ...` assignment, found %d" % len(found))
+        return []
+    out = []
+    for n in found[0]:
+        if n not in GROUPS:
+            problems.append("wrap_function: unknown statement group %r in C_code" % n)
+        out.append(GROUPS.get(n, 9))
+    return out
+
+
 def rows_for(lang, problems):
     rows = []
     dealloc_flag = dealloc_capsule_registers()
@@ -267,7 +303,7 @@ def nat_list(s):
     return "[" + ", ".join(str(ord(c)) for c in s) + "]"
 
 
-def render(rows, capargs, keycode=0):
+def render(rows, capargs, keycode=0, order=()):
     L = ["/- GENERATED by tools/extract_capsule.py from the /repo working tree.  Do not edit. -/",
          "namespace Shroud.Gen.Capsule", "",
          "/-- one effective statement block that allocates, frees or hands over memory:",
@@ -302,6 +338,8 @@ def render(rows, capargs, keycode=0):
           ",\n".join("  (%s, %d)" % (nat_list(n), c) for n, c in capargs), "]", "",
           "/-- key of the destructor registry in Wrapc.compute_idtor: 0 qualified C++ type, 1 bare class name, 9 other -/",
           "def registryKeyCode : Nat := %d" % keycode, "",
+          "/-- order of the statement groups of a C wrapper: 0 pre_call, 1 call, 2 post_call_pattern, 3 post_call, 4 final, 5 return -/",
+          "def wrapGroupOrder : List Nat := [%s]" % ", ".join(map(str, order)), "",
           "end Shroud.Gen.Capsule", ""]
     return "\n".join(L)
 
@@ -329,7 +367,10 @@ def regenerate():
     keycode = registry_key_code(problems)
     if problems:
         raise Unclassified("\n".join(problems[:20]))
-    text = render(rows, capargs, keycode)
+    order = wrap_group_order(problems)
+    if problems:
+        raise Unclassified("\n".join(problems[:20]))
+    text = render(rows, capargs, keycode, order)
     changed = write_if_changed(GEN, text)
     return {"capsule_args": len(capargs), "rows": len(rows), "allocating": sum(1 for r in rows if r["allocs"]), "changed": changed,
             "row_list": rows}
